@@ -20,6 +20,9 @@ def run(tier, seed):
     for pe, we, sp in combos:
         ctx.replay(g, Hist1DAdapter(POS[pe], WTS[we], spelling=sp), VIEW, label=f"1D:{pe}/{we}/sp{sp}",
                    edge_budget=60000 if tier == "quick" else 400000)
+    # the empty histogram is the emptied copy of a filled one (copy(include_frequencies=False)), filled afterwards
+    ctx.replay(g, Hist1DAdapter(POS["dyadic"], WTS["int"], spelling=2), VIEW, first_actions={"NewEmpty"}, label="1D:dyadic/int/sp2(template copy)",
+               edge_budget=25000 if tier == "quick" else 100000)
     # unit-weight fills spelled with the operator alias `h << value`
     ctx.replay(g, Hist1DAdapter(POS["neg"], WTS["int"], spelling=3), VIEW, label="1D:neg/int/sp3(<<)", edge_budget=25000 if tier == "quick" else 100000)
     if tier == "thorough":
